@@ -172,7 +172,20 @@ CellBound(logic, n, shards) ==
         doc  == IF n <= 1000000 THEN CeilDivV(perm * n, 1000) ELSE perm * (n \div 1000 + 1)
     IN  MaxOf(3 * seg * shards, doc + seg * shards)
 
+\* the same with the 23% that the property states for every size (fuse logics)
+CellBound23(logic, n, shards) ==
+    IF Mwhc(logic) THEN CellBound(logic, n, shards)
+    ELSE
+    LET lin  == LinRegime(logic, n)
+        m    == IF shards = 1 THEN n ELSE CeilDivV(101 * CeilDivV(n, shards), 100)
+        seg  == SegCap(lin, m)
+        doc  == IF n <= 1000000 THEN CeilDivV(1230 * n, 1000) ELSE 1230 * (n \div 1000 + 1)
+    IN  MaxOf(3 * seg * shards, doc + seg * shards)
+
 MemBoundBits(b, shards) == CellBound(b.logic, b.n, shards) * ValWidth(b) + FixedWords * 64
+\* beyond this, a structure is not even within the bound stated for small key sets
+\* (reason "space-gross": the recorded finding F-noshards-space, 1.188 n b at most, stays below it)
+MemBoundBits23(b, shards) == CellBound23(b.logic, b.n, shards) * ValWidth(b) + FixedWords * 64
 
 (***************************************************************************)
 (* B. The build loop                                                       *)
